@@ -81,6 +81,13 @@ Theorem T01_body_framing : forall x t r o,
 Proof. exact body_framing. Qed.
 Print Assumptions T01_body_framing.
 
+(* While the body is read only the whole-request deadline is armed (none with forwarder's default ReadTimeout = 0):
+   a body may take longer than ReadHeaderTimeout.  (Deadline arithmetic of the model; that slow bodies arrive
+   complete is tested end to end with a 300 ms header timeout.) *)
+Theorem T01_body_not_under_header_deadline : forall hdr whole, body_read_deadline hdr whole = whole.
+Proof. exact body_deadline_is_whole. Qed.
+Print Assumptions T01_body_not_under_header_deadline.
+
 (* The k-th request of a keep-alive connection is treated like the first: the pipeline is a function of the
    current request only (true by construction of the model; that the implementation keeps no state between
    requests, incl. the bufio reader synchronisation, is tested end to end). *)
